@@ -389,6 +389,15 @@ class Executor:
                     cont[key] = Ref((tgt,), True)
                     cont, key = st.locals, tgt
                     continue
+                if isinstance(cur, Agg):
+                    # an opaque value of reference type (e.g. returned by an unmodelled call): it points
+                    # to an anonymous object, represented by the aggregate itself
+                    tgt = f"@anon{self.ctx.n}"
+                    self.ctx.n += 1
+                    st.locals[tgt] = cur
+                    cont[key] = Ref((tgt,), True)
+                    cont, key = st.locals, tgt
+                    continue
                 raise Unsupported(f"deref of non-reference {place}")
             cur = cont.get(key)
             if cur is None:
@@ -666,6 +675,10 @@ class Executor:
             return
         if re.match(r"\[.*\]$", rhs) or rhs.startswith("PtrMetadata") or rhs.startswith("Len(") or " as " in rhs or rhs.startswith("ShallowInitBox") or rhs.startswith("{closure") or rhs.startswith("{coroutine") or rhs.startswith("{async"):
             self.write_place(st, lhs, self.ctx.fresh(lty or "?", "opaque"))
+            return
+        if re.fullmatch(r"[\w:<>, ]+::[A-Z]\w*", rhs):
+            # a unit-like variant/constant of a type whose layout we do not track (e.g. atomic::Ordering)
+            self.write_place(st, lhs, Agg("const:" + rhs[-30:]))
             return
         raise Unsupported(f"rvalue not understood: {lhs} = {rhs[:120]}")
 
